@@ -430,6 +430,21 @@ func (in *inliner) site(call *ast.CallExpr, obj *types.Func, recv ast.Expr, stac
 					in.skip(obj, "unsupported left-hand side")
 					return
 				}
+				// a variable declared by this very statement that bears the name of a package or package-level object (  srp, err :=
+				// newSetupSRP(name)  next to the import srp ): declared in front of the inlined body it would capture the body's uses of
+				// that name. The results go to temporaries declared in front, the statement keeps its := behind the body.
+				if st.Tok == token.DEFINE && in.declaresShadowingName(st) {
+					pre2, lhs2, post, ok2 := in.lhsViaTemps(st)
+					if !ok2 {
+						in.skip(obj, "unsupported left-hand side")
+						return
+					}
+					body, ok := in.expand(call, obj, recv, lhs2, nil, "")
+					if ok {
+						in.edits = append(in.edits, textEdit{start: in.off(st.Pos()), end: in.off(st.End()), text: pre2 + body + "; " + post})
+					}
+					return
+				}
 				body, ok := in.expand(call, obj, recv, lhs, nil, "")
 				if ok {
 					in.edits = append(in.edits, textEdit{start: in.off(st.Pos()), end: in.off(st.End()), text: pre + body})
@@ -521,6 +536,68 @@ func (in *inliner) lhsDecls(st *ast.AssignStmt) (string, []string, bool) {
 		lhs = append(lhs, in.text(l))
 	}
 	return pre, lhs, true
+}
+
+// declaresShadowingName: the := statement declares a variable named like an import of this file or an object of the package scope.
+func (in *inliner) declaresShadowingName(st *ast.AssignStmt) bool {
+	for _, l := range st.Lhs {
+		id, ok := l.(*ast.Ident)
+		if !ok || id.Name == "_" || in.pk.TypesInfo.Defs[id] == nil {
+			continue
+		}
+		if in.fileScopeHas(id.Name) || in.pk.Types.Scope().Lookup(id.Name) != nil {
+			return true
+		}
+		for _, imp := range in.file.Imports {
+			name := ""
+			if imp.Name != nil {
+				name = imp.Name.Name
+			} else {
+				p := strings.Trim(imp.Path.Value, "\"")
+				name = p[strings.LastIndex(p, "/")+1:]
+			}
+			if name == id.Name {
+				return true
+			}
+		}
+	}
+	return false
+}
+
+// lhsViaTemps: for  a, b := f()  — temporaries for the newly declared names (declared in front), the left-hand sides the inlined body
+// assigns to, and the statement  a, b := t0, t1  that follows the body.
+func (in *inliner) lhsViaTemps(st *ast.AssignStmt) (pre string, lhs []string, post string, ok bool) {
+	var names, vals []string
+	for k, l := range st.Lhs {
+		id, isId := l.(*ast.Ident)
+		if !isId {
+			return "", nil, "", false
+		}
+		if id.Name == "_" {
+			lhs = append(lhs, "_")
+			names = append(names, "_")
+			vals = append(vals, "0")
+			continue
+		}
+		if obj := in.pk.TypesInfo.Defs[id]; obj != nil {
+			ts, okT := in.typeText(obj.Type(), st.Pos())
+			if !okT {
+				return "", nil, "", false
+			}
+			*in.counter++
+			tmp := fmt.Sprintf("_hd%d_%d", *in.counter, k)
+			pre += "var " + tmp + " " + ts + "; "
+			lhs = append(lhs, tmp)
+			names = append(names, id.Name)
+			vals = append(vals, tmp)
+			continue
+		}
+		// an existing variable re-used by the :=
+		lhs = append(lhs, id.Name)
+		names = append(names, id.Name)
+		vals = append(vals, id.Name)
+	}
+	return pre, lhs, strings.Join(names, ", ") + " := " + strings.Join(vals, ", "), true
 }
 
 // typeText renders t as it must be written in this file, or fails when a needed package is not imported or a name is shadowed.
@@ -1038,7 +1115,8 @@ func (in *inliner) hoist(call *ast.CallExpr, obj *types.Func, recv ast.Expr, sta
 		}
 	case *ast.DeclStmt:
 		//  var x T = call(...)  (the form the inliner itself produces for the parameters of an inlined helper)
-		if gd, ok := s.Decl.(*ast.GenDecl); ok && gd.Tok == token.VAR && len(gd.Specs) == 1 {
+		// ... also the first initialiser of a var ( … ) block: nothing of the block is evaluated before it
+		if gd, ok := s.Decl.(*ast.GenDecl); ok && gd.Tok == token.VAR && len(gd.Specs) >= 1 {
 			if vs, ok := gd.Specs[0].(*ast.ValueSpec); ok && len(vs.Values) >= 1 {
 				root = vs.Values[0]
 				declares = true
